@@ -161,6 +161,36 @@ def bad_calls(snap: Snap, ctx) -> list[tuple[str, dict]]:
     out.append(("chan/unknown-name-delay", {"op": "delay", "d": 16, "ch": "ghost"}))
     out.append(("chan/unknown-id", {"op": "declare_channel", "name": "zz_new", "channel_id": "no_such_channel"}))
     out.append(("chan/dmm-prefix-name", {"op": "declare_channel", "name": "dmm_x", "channel_id": next(iter(dev.channels))}))
+    # a Local channel whose initial target is refused, once per basis (the first
+    # channel of a basis creates its phase references before the target is set)
+    seen_basis = set()
+    used_ids = {cs.channel_id for cs in snap.channels.values()}
+    for cid, ch in dev.channels.items():
+        if ch.addressing != "Local" or ch.basis in seen_basis:
+            continue
+        if cid in used_ids and not getattr(dev, "reusable_channels", False):
+            continue
+        if (ch.basis == "XY") != bool(snap.flags["in_xy"]) and (snap.flags["in_xy"] or snap.flags["in_ising"]):
+            continue
+        seen_basis.add(ch.basis)
+        out.append(("chan/local-unknown-initial-target", {"op": "declare_channel", "name": "zz_loc_" + ch.basis, "channel_id": cid, "initial_target": "nope"}))
+        if ch.max_targets is not None and len(qids) > ch.max_targets:
+            out.append(("chan/local-too-many-initial-targets", {"op": "declare_channel", "name": "zz_many_" + ch.basis, "channel_id": cid, "initial_target": qids[: ch.max_targets + 1]}))
+    # the first pulse after a pending SLM mask drives an automatic DMM pulse of
+    # the same length, which the DMM refuses when it is shorter than its minimum
+    for n, cs in snap.channels.items():
+        if cs.is_dmm and cs.waiting_first_pulse and cs.obj.min_duration > 1:
+            for g, gs in snap.channels.items():
+                gch = gs.obj
+                if gs.is_dmm or gch.addressing != "Global" or gs.in_eom or not gs.slots:
+                    continue
+                d_short = gch.min_duration
+                if d_short % gch.clock_period:
+                    d_short += gch.clock_period - d_short % gch.clock_period
+                if d_short < cs.obj.min_duration and (gch.max_duration is None or d_short <= gch.max_duration):
+                    out.append(("slm/first-pulse-shorter-than-dmm-min", {"op": "add", "ch": g, "pulse": dict(_const_pulse(d_short, _valid_amp(gch)), pps=0.7)}))
+                    break
+            break
     if names:
         first = names[0]
         any_id = next(iter(dev.channels))
@@ -208,6 +238,45 @@ def bad_calls(snap: Snap, ctx) -> list[tuple[str, dict]]:
         n = cands[0]
         out.append(("var/foreign-variable", {"op": "add_var", "ch": n, "var": "alien", "foreign": True, "d": _valid_d(snap.channels[n].obj)}))
         out.append(("var/foreign-variable-delay", {"op": "delay_var", "ch": n, "var": "alien", "foreign": True}))
+    return out
+
+
+def fork_calls(snap: Snap, ctx) -> list[tuple[str, dict]]:
+    """Two-step faults, run on a copy rebuilt from the call log: a valid delay
+    first brings a channel to within one clock period of the device's maximum
+    sequence duration, then a call whose AUTOMATIC delay (EOM buffer, phase-jump
+    buffer, retarget time, fall time) no longer fits is issued; it must be
+    refused and leave the copy as it was after the delay."""
+    out: list[tuple[str, dict]] = []
+    dev = ctx.sut.device
+    max_seq = dev.max_sequence_duration
+    if max_seq is None or snap.parametrized or snap.flags["measured"]:
+        return out
+    qids = ctx.qids
+    for n, cs in snap.channels.items():
+        ch = cs.obj
+        if cs.is_dmm or not cs.slots:
+            continue
+        fill = max_seq - cs.end - ch.clock_period
+        fill -= fill % ch.clock_period
+        if fill < max(ch.min_duration, 1) or (ch.max_duration is not None and fill > ch.max_duration):
+            continue
+        prelude = [{"op": "delay", "d": fill, "ch": n}]
+        a = _valid_amp(ch)
+        d = _valid_d(ch)
+        if cs.in_eom:
+            out.append(("fork/eom-disable-no-room", {"op": "fork", "prelude": prelude, "bad": {"op": "disable_eom_mode", "ch": n}}))
+            out.append(("fork/eom-modify-no-room", {"op": "fork", "prelude": prelude, "bad": {"op": "modify_eom_setpoint", "ch": n, "amp_on": a, "det_on": 0.0}}))
+            out.append(("fork/eom-pulse-no-room", {"op": "fork", "prelude": prelude, "bad": {"op": "add_eom_pulse", "ch": n, "d": d, "phase": 2.5}}))
+        else:
+            out.append(("fork/pulse-phase-jump-no-room", {"op": "fork", "prelude": prelude, "bad": {"op": "add", "ch": n, "pulse": _const_pulse(d, a, phase=2.5)}}))
+            if ch.supports_eom():
+                out.append(("fork/eom-enable-no-room", {"op": "fork", "prelude": prelude, "bad": {"op": "enable_eom_mode", "ch": n, "amp_on": a, "det_on": 0.0}}))
+            if ch.addressing == "Local" and len(qids) >= 2:
+                cur = set(cs.slots[-1].targets)
+                other = [q for q in qids if q not in cur]
+                if other:
+                    out.append(("fork/retarget-no-room", {"op": "fork", "prelude": prelude, "bad": {"op": "target", "qubits": other[0], "ch": n}}))
     return out
 
 
